@@ -2,16 +2,22 @@
 (* Case enumeration for C19 (spec -> code).  Every initial state is one call
    of an elementwise operation - operand forms, kinds, shapes, chunkings, cell
    values - together with the result demanded by module Elemwise.  TLC checks
-   sanity properties of the reference itself on every case (design check).   *)
+   sanity properties of the reference itself on every case (design check).
+
+   The case space is the union of the spaces described by the records in
+   Configs (one TLC run serves all of them):
+     lab     name of the sub-space (reported with the case)
+     fam     "binary" | "unary" | "astype" | "where" | "clip" | "outwhere"
+     shapes  set of operand shapes; operand tuples = all broadcastable tuples
+     bad     extra (non-broadcastable) shape tuples: an error is expected
+     ops     operation names (astype: target kinds)
+     ktuples set of kind tuples, one kind per operand
+     forms   set of form tuples, one of "d" "n" "s" "-" per operand
+     allch   TRUE: ALL chunkings of every dask operand; FALSE: the two extreme ones
+     zero    TRUE: also chunkings with a zero-width chunk                      *)
 EXTENDS Elemwise
 
-CONSTANTS Fam,      \* "binary" | "unary" | "astype" | "where" | "clip" | "outwhere"
-          Shapes,   \* set of operand shapes; operand tuples = all broadcastable tuples
-          BadTuples,\* extra (non-broadcastable) shape tuples: an error is expected
-          Ops,      \* operation names (astype: target kinds)
-          KTuples,  \* set of kind tuples, one kind per operand
-          Forms,    \* set of form tuples, one of "d" "n" "s" "-" per operand
-          ZeroCh    \* BOOLEAN: also chunkings with a zero-width chunk
+CONSTANTS Configs
 
 VARIABLES case, exp, out
 
@@ -20,8 +26,9 @@ Single(sh)  == [d \in DOMAIN sh |-> <<sh[d]>>]
 ZeroChunkings(sh) ==
   UNION { { [base EXCEPT ![d] = z] : z \in WithOneZero(sh[d]), base \in {AllOnes(sh), Single(sh)} }
           : d \in {d \in DOMAIN sh : sh[d] >= 1} }
-ChunkSet(sh) == NDChunkings(sh) \cup (IF ZeroCh THEN ZeroChunkings(sh) ELSE {})
-ChFor(f, sh) == IF f = "d" THEN ChunkSet(sh) ELSE {<<>>}
+ChunkSet(g, sh) == (IF g.allch THEN NDChunkings(sh) ELSE {AllOnes(sh), Single(sh)})
+                   \cup (IF g.zero THEN ZeroChunkings(sh) ELSE {})
+ChFor(g, f, sh) == IF f = "d" THEN ChunkSet(g, sh) ELSE {<<>>}
 
 \* cell values from element ids: value = m * id + o (bool: an irregular 0/1 pattern)
 Tri(n) == (n * (n + 1)) \div 2
@@ -34,48 +41,43 @@ Opd(f, k, sh, ch, mo) ==
 Ident(role) == CASE role = 1 -> <<1, 1>> [] role = 2 -> <<10, 10>> [] role = 3 -> <<100, 100>> [] OTHER -> <<1, 0>>
 \* interleaved values for comparisons, min/max, division, bit operations
 Mixed(role) == CASE role = 1 -> <<3, 2>> [] role = 2 -> <<5, 1>> [] role = 3 -> <<2, 12>> [] OTHER -> <<1, 0>>
-VP(op, role) == IF op \in {"add", "sub", "mul", "where", "neg", "abs", "square", "lnot"} \cup Kinds
-                THEN Ident(role) ELSE Mixed(role)
 
-Tuples(n) == {t \in [1..n -> Shapes] : BroadcastOK(t)} \cup {t \in BadTuples : Len(t) = n}
+Arity(fam) == CASE fam = "binary" -> 2 [] fam = "unary" -> 1 [] fam = "astype" -> 1
+                [] fam = "where" -> 3 [] fam = "clip" -> 3 [] fam = "outwhere" -> 4
+
+\* where(c, x, y): the condition is role 3; clip(x, lo, hi): lo = 5*id+1 and hi = 2*id+12
+\* lie on both sides of x = 3*id+2
+RoleOf(fam, j) == IF fam = "where" THEN (CASE j = 1 -> 3 [] j = 2 -> 1 [] j = 3 -> 2) ELSE j
+
+VPFor(fam, op, j) ==
+  IF fam \in {"where", "outwhere", "unary", "astype"} \/ (fam = "binary" /\ op \in {"add", "sub", "mul"})
+  THEN Ident(RoleOf(fam, j)) ELSE Mixed(RoleOf(fam, j))
+
+Tuples(g) == {t \in [1..Arity(g.fam) -> g.shapes] : BroadcastOK(t)} \cup {t \in g.bad : Len(t) = Arity(g.fam)}
 
 FormFits(fs, sp) == \A j \in DOMAIN fs : fs[j] \in {"s", "-"} => sp[j] = <<>>
 KindFits(op, fs, ks) ==
   /\ \A j \in DOMAIN fs : fs[j] = "s" => ks[j] # "u"            \* there is no Python uint
   /\ (op \in DivOps /\ Len(ks) >= 2) => ks[2] # "b"             \* no zero divisors
 
-RECURSIVE ChunkChoices(_, _)
+RECURSIVE ChunkChoices(_, _, _)
 \* all ways to choose chunks for the operands (sequence of chunkings)
-ChunkChoices(fs, sp) ==
+ChunkChoices(g, fs, sp) ==
   IF fs = <<>> THEN {<<>>}
-  ELSE {<<c>> \o r : c \in ChFor(Head(fs), Head(sp)), r \in ChunkChoices(Tail(fs), Tail(sp))}
+  ELSE {<<c>> \o r : c \in ChFor(g, Head(fs), Head(sp)), r \in ChunkChoices(g, Tail(fs), Tail(sp))}
 
-Arity == CASE Fam = "binary" -> 2 [] Fam = "unary" -> 1 [] Fam = "astype" -> 1
-           [] Fam = "where" -> 3 [] Fam = "clip" -> 3 [] Fam = "outwhere" -> 4
+MkCase(g, op, fs, ks, sp, cc) ==
+  [lab |-> g.lab, fam |-> g.fam, op |-> op,
+   xs |-> [j \in 1..Arity(g.fam) |-> Opd(fs[j], ks[j], sp[j], cc[j], VPFor(g.fam, op, j))]]
 
-\* clip: lo role 3 (2*id+12 >= 12) may lie above or below x = 3*id+2; hi is role 2
-RoleOf(j) == IF Fam = "clip" THEN (CASE j = 1 -> 1 [] j = 2 -> 2 [] j = 3 -> 3)
-             ELSE IF Fam = "where" THEN (CASE j = 1 -> 3 [] j = 2 -> 1 [] j = 3 -> 2)
-             ELSE IF Fam = "outwhere" THEN (CASE j = 1 -> 1 [] j = 2 -> 2 [] j = 3 -> 3 [] j = 4 -> 4)
-             ELSE j
-
-VPFor(op, j) == IF Fam \in {"where", "outwhere"} THEN Ident(RoleOf(j))
-                ELSE IF Fam = "clip" THEN Mixed(RoleOf(j))
-                ELSE VP(op, RoleOf(j))
-
-Cases ==
-  UNION { UNION { UNION { UNION {
-      { [fam |-> Fam, op |-> op,
-         xs |-> [j \in 1..Arity |-> Opd(fs[j], ks[j], sp[j], cc[j], VPFor(op, j))]]
-        : cc \in ChunkChoices(fs, sp) }
-      : ks \in {k \in KTuples : Len(k) = Arity /\ KindFits(op, fs, k)} }
-      : fs \in {f \in Forms : Len(f) = Arity /\ FormFits(f, sp)} }
-      : op \in Ops }
-      : sp \in Tuples(Arity) }
-
-Init == /\ case \in Cases
-        /\ exp = Expected(case)
-        /\ out = ToJson([c |-> case, e |-> exp])
+\* the case space as nested choices (TLC enumerates them without building the set)
+Init == \E g \in Configs : \E sp \in Tuples(g) : \E op \in g.ops : \E fs \in g.forms : \E ks \in g.ktuples :
+          /\ Len(fs) = Arity(g.fam) /\ FormFits(fs, sp)
+          /\ Len(ks) = Arity(g.fam) /\ KindFits(op, fs, ks)
+          /\ \E cc \in ChunkChoices(g, fs, sp) :
+                /\ case = MkCase(g, op, fs, ks, sp, cc)
+                /\ exp = Expected(case)
+                /\ out = ToJson([c |-> case, e |-> exp])
 Next == UNCHANGED <<case, exp, out>>
 
 -----------------------------------------------------------------------------
@@ -91,13 +93,13 @@ ShapeIsBroadcast ==
 
 \* commutative operations do not depend on the operand order
 Commutes ==
-  (Fam = "binary" /\ case.op \in {"add", "mul", "min", "max", "eq", "ne", "and", "or", "xor"})
+  (case.fam = "binary" /\ case.op \in {"add", "mul", "min", "max", "eq", "ne", "and", "or", "xor"})
      => Binary(case.op, case.xs[2], case.xs[1]) = exp
 
 \* attribution: with identifying values, a cell of x + y names the cells of x and
 \* y it was made of, and these are the ones broadcasting relates to the position
 Attribution ==
-  (Fam = "binary" /\ case.op = "add" /\ ~exp.err /\ exp.kind \in {"i", "f", "c"}
+  (case.fam = "binary" /\ case.op = "add" /\ ~exp.err /\ exp.kind \in {"i", "f", "c"}
      /\ case.xs[1].k # "b" /\ case.xs[2].k # "b") =>
    \A p \in DOMAIN exp.cells :
       LET qx == exp.cells[p] % 10
@@ -108,13 +110,13 @@ Attribution ==
       IN /\ qx \in 1..Size(case.xs[1].sh) /\ rel(case.xs[1].sh, qx)
          /\ qy \in 1..Size(case.xs[2].sh) /\ rel(case.xs[2].sh, qy)
 
-\* where() only ever selects a cell of x or of y; with out=, unselected cells are out's
+\* where() only ever selects a cell of x or of y; without where=, no cell is a don't-care
 Selects ==
-  /\ (Fam = "where" /\ ~exp.err /\ exp.kind \notin {"b", "u"}) =>
+  /\ (case.fam = "where" /\ ~exp.err /\ exp.kind \notin {"b", "u"}) =>
         \A p \in DOMAIN exp.cells :
            \/ exp.cells[p] \in {case.xs[2].v[q] : q \in DOMAIN case.xs[2].v}
            \/ exp.cells[p] \in {case.xs[3].v[q] : q \in DOMAIN case.xs[3].v}
-  /\ (Fam = "outwhere" /\ ~exp.err /\ ~Present(case.xs[4])) =>
+  /\ (case.fam = "outwhere" /\ ~exp.err /\ ~Present(case.xs[4])) =>
         \A p \in DOMAIN exp.cells : exp.cells[p] # DC
 
 \* comparisons and logical_not give 0/1; uint8 results stay in 0..255
